@@ -52,15 +52,19 @@ func allChecks() []Check {
 			ID: "C02", Title: "The tree follows the grammar: precedence, associativity, binding, rejection",
 			Runs: []HarnessRun{
 				{Harness: "VP_C02_tokens", Quick: map[string]int{"K": 3}, Thorough: map[string]int{"K": 4}, MustReach: []string{"C02/tokens/derivable", "C02/tokens/underivable"}, PanicLabel: "C02/tokens/no-panic"},
-				{Harness: "VP_C02_ops", Quick: map[string]int{"N": 3, "P": 0}, Thorough: map[string]int{"N": 3, "P": 0}, MustReach: []string{"C02/ops/derivable", "C02/ops/underivable"}, PanicLabel: "C02/ops/no-panic"},
-				{Harness: "VP_C02_ops", Quick: map[string]int{"N": 1, "P": 1}, Thorough: map[string]int{"N": 2, "P": 1}, MustReach: []string{"C02/ops/derivable"}, PanicLabel: "C02/ops/no-panic"},
+				{Harness: "VP_C02_ops", Quick: map[string]int{"N": 3, "P": 0, "ALPHA": 0}, Thorough: map[string]int{"N": 3, "P": 0, "ALPHA": 0}, MustReach: []string{"C02/ops/derivable", "C02/ops/underivable"}, PanicLabel: "C02/ops/no-panic"},
+				{Harness: "VP_C02_ops", Quick: map[string]int{"N": 4, "P": 0, "ALPHA": 1}, Thorough: map[string]int{"N": 5, "P": 0, "ALPHA": 1}, MustReach: []string{"C02/ops/derivable"}, PanicLabel: "C02/ops/no-panic"},
+				{Harness: "VP_C02_bytes", Quick: map[string]int{"L": 2}, Thorough: map[string]int{"L": 3}, MustReach: []string{"C02/bytes/derivable", "C02/bytes/underivable"}, PanicLabel: "C02/bytes/no-panic"},
+				{Harness: "VP_C02_ops", Quick: map[string]int{"N": 1, "P": 1, "ALPHA": 0}, Thorough: map[string]int{"N": 2, "P": 1, "ALPHA": 0}, MustReach: []string{"C02/ops/derivable"}, PanicLabel: "C02/ops/no-panic"},
 				{Harness: "VP_C02_lists", Quick: map[string]int{"K": 2}, Thorough: map[string]int{"K": 3}, MustReach: []string{"C02/lists/derivable", "C02/lists/underivable"}, PanicLabel: "C02/lists/no-panic"},
 				{Harness: "VP_C02_postfix", Quick: map[string]int{"K": 5}, Thorough: map[string]int{"K": 6}, MustReach: []string{"C02/postfix/derivable", "C02/postfix/underivable"}, PanicLabel: "C02/postfix/no-panic"},
 			},
 			Bounds: map[string]string{"tokens": "differential: real parser (stub scanner, cut at first diagnostic) vs a reference parser written from the statement, on every sequence of exactly K tokens over the full alphabet with symbolic line-break flags; accept/reject must agree and trees are compared structurally; quick K=3, thorough K=4",
-				"ops":     "a op b op c op d with N symbolic operators over all binary operators, ',', '=', '?', ':' (N=3: all triples); with P=1 one operand (symbolic choice) carries symbolic prefix operators/typeof and a postfix .name or ()",
-				"postfix": "a primary followed by K symbolic tokens over { . !. ( ) name , } with symbolic line-break flags (member access / call chains); quick K=5, thorough K=6",
-				"lists":   "[ t1..tK ] and a( t1..tK ) with K symbolic inner tokens and a symbolic line-break flag on the closing token; quick K=2, thorough K=3"},
+				"ops":       "a op b op c op d with N symbolic operators over all binary operators, ',', '=', '?', ':' (N=3: all triples); with P=1 one operand (symbolic choice) carries symbolic prefix operators/typeof and a postfix .name or ()",
+				"ops-assoc": "chains of N operators over the associativity-sensitive sub-alphabet {? : = , + || *} (N=4 quick, 5 thorough): nested conditionals, assignment chains, comma",
+				"bytes":     "integration without the stub: real scanner+parser on every text of L symbolic bytes vs reference tokenizer + reference parser (quick L=2, thorough L=3)",
+				"postfix":   "a primary followed by K symbolic tokens over { . !. ( ) name , } with symbolic line-break flags (member access / call chains); quick K=5, thorough K=6",
+				"lists":     "[ t1..tK ] and a( t1..tK ) with K symbolic inner tokens and a symbolic line-break flag on the closing token; quick K=2, thorough K=3"},
 			Outside:     []string{"token sequences longer than the layers", "f(...) with no argument before the spread and whether the name after '.' may start on the next line (statement silent: assumed away)", "token-internal scanner errors (malformed literals) at token level"},
 			Assumptions: append([]string{"token-level harnesses replace (*Scanner).Scan by a stub that returns symbolic token kinds from the scanner image established by C14/scanstep (kind-in-image); native replays render the tokens to text and run the real scanner"}, commonAssumptions...),
 		},
@@ -84,26 +88,32 @@ func allChecks() []Check {
 			Runs: []HarnessRun{
 				{Harness: "VP_C04_entry_int", Quick: map[string]int{"LO": 0, "HI": 63}, MustReach: []string{"C04/entry-int/done"}, PanicLabel: "C04/entry-int/no-panic"},
 				{Harness: "VP_C04_entry_int", Quick: map[string]int{"LO": -1, "HI": 0}, MustReach: []string{"C04/entry-int/done"}, PanicLabel: "C04/entry-int/no-panic"},
+				{Harness: "VP_C04_entry_float", Quick: map[string]int{}, MustReach: []string{"C04/entry-float/done"}, PanicLabel: "C04/entry-float/no-panic", SampleEvery: 1},
+				{Harness: "VP_C04_wide", Quick: map[string]int{}, MustReach: []string{"C04/wide/done"}, PanicLabel: "C04/wide/no-panic", SampleEvery: 3},
 				{Harness: "VP_C04_arith", Quick: map[string]int{"OP": 0, "CB": 1000000, "E": 1, "DB": 0}, Thorough: map[string]int{"OP": 0, "CB": 1000000000, "E": 2, "DB": 0}, MustReach: []string{"C04/arith/done"}, PanicLabel: "C04/arith/no-panic"},
 				{Harness: "VP_C04_arith", Quick: map[string]int{"OP": 1, "CB": 1000000, "E": 1, "DB": 0}, Thorough: map[string]int{"OP": 1, "CB": 1000000000, "E": 2, "DB": 0}, MustReach: []string{"C04/arith/done"}, PanicLabel: "C04/arith/no-panic"},
 				{Harness: "VP_C04_arith", Quick: map[string]int{"OP": 2, "CB": 100000, "E": 1, "DB": 0}, Thorough: map[string]int{"OP": 2, "CB": 1000000, "E": 2, "DB": 0}, MustReach: []string{"C04/arith/done"}, PanicLabel: "C04/arith/no-panic"},
 				{Harness: "VP_C04_arith", Quick: map[string]int{"OP": 3, "CB": 1000, "E": 1, "DB": 6}, Thorough: map[string]int{"OP": 3, "CB": 1000, "E": 1, "DB": 30}, MustReach: []string{"C04/arith/done"}, PanicLabel: "C04/arith/no-panic"},
 			},
 			Bounds: map[string]string{"arith": "[a OP b] evaluated by the real runner for a, b = (-1)^s * c * 10^e with symbolic sign and coefficient c < CB and every exponent pair in [-E,E]^2 (real decimal add/mul/quorem code executed symbolically) vs exact integer arithmetic at the common exponent; result context asserted to be precision 34 / half-even; OP 0,1 (+,-): CB=10^6 quick / 10^9 thorough; OP 2 (*): CB=10^5 / 10^6; OP 3 (%): the divisor's coefficient is case-split over 1..DB-1 (symbolic-by-symbolic division does not finish), dividend c < 1000",
-				"entry-int": "a Go int64 / int / int32 data value n (one symbolic 64-bit value, 1 <= |n| < 2^63, plus |n| < 1000 incl. 0) read back through the evaluator equals n exactly"},
+				"entry-float": "CONCRETE POOL (not symbolic): 18 float64 data values incl. 0.1, 0.3, 2^53+1, 1e19, 2^63, 1e22, 5e-324, MaxFloat64 with hand-written expected decimal (coefficient, exponent); strconv's shortest formatting of a symbolic float is not encodable",
+				"wide":        "CONCRETE POOL (not symbolic): 54 cases of + - * % on operands of up to 34 digits incl. results that must be rounded half-even to 34 digits; expected values computed independently (Python decimal prec 34 ROUND_HALF_EVEN, exact big integers for %)",
+				"entry-int":   "a Go int64 / int / int32 data value n (one symbolic 64-bit value, 1 <= |n| < 2^63, plus |n| < 1000 incl. 0) read back through the evaluator equals n exactly"},
 			Outside:     []string{"n = MinInt64", "'/' (the library scales the dividend by 10^34 into math/big: division on symbolic words does not finish in any back end)", "results beyond 34 digits (the half-even rounding regime needs coefficients beyond 64 bits)", "float64 data values and the final float64 hand-back (strconv formatting/parsing of symbolic floats is not encodable)", "chains of operations"},
 			Assumptions: commonAssumptions,
 		},
 		{
 			ID: "C05", Title: "Ordering and equality are lawful and representation-independent",
 			Runs: []HarnessRun{
-				{Harness: "VP_C05_numbers", Quick: map[string]int{"CB": 1000000, "E": 2}, Thorough: map[string]int{"CB": 1000000000, "E": 4}, MustReach: []string{"C05/numbers/done"}, PanicLabel: "C05/numbers/no-panic"},
+				{Harness: "VP_C05_numbers", Quick: map[string]int{"CB": 100, "E": 1, "WIDE": 20}, Thorough: map[string]int{"CB": 1000, "E": 1, "WIDE": 36}, MustReach: []string{"C05/numbers/done"}, PanicLabel: "C05/numbers/no-panic"},
+				{Harness: "VP_C05_numbers", Quick: map[string]int{"CB": 1000000, "E": 2, "WIDE": 0}, Thorough: map[string]int{"CB": 1000000000, "E": 4, "WIDE": 0}, MustReach: []string{"C05/numbers/done"}, PanicLabel: "C05/numbers/no-panic"},
 				{Harness: "VP_C05_strings", Quick: map[string]int{"S": 3}, Thorough: map[string]int{"S": 5}, MustReach: []string{"C05/strings/done"}, PanicLabel: "C05/strings/no-panic"},
 				{Harness: "VP_C05_kinds", Quick: map[string]int{}, MustReach: []string{"C05/kinds/done"}, PanicLabel: "C05/kinds/no-panic"},
 			},
 			Bounds: map[string]string{"numbers": "a, b = (-1)^s * c * 10^e with symbolic sign and coefficient c < CB, every exponent pair in [-E,E]^2 (so every spelling 1, 1.0, 10e-1 of a value is a (c,e) pair), incl. -0; all eight operators evaluated by the real runner (real decimal.Cmp executed symbolically) vs exact integer order at the common exponent; quick CB=10^6,E=2; thorough CB=10^9,E=4",
-				"strings": "two strings of 0..S symbolic bytes vs an explicit byte-wise loop; quick S=3, thorough S=5",
-				"kinds":   "operands over {null, typed nil pointer, bool, number (c<1000, e in -1..1), string (<=1 byte)}^2 for == != === !=="},
+				"numbers-wide": "the same with exponents from the sparse grid {0, 1, W/2, W-1, W} (one side also negated): values beyond 2^63 and up to 10^W apart; quick c<100, W=20; thorough c<1000, W=36",
+				"strings":      "two strings of 0..S symbolic bytes vs an explicit byte-wise loop; quick S=3, thorough S=5",
+				"kinds":        "operands over {null, typed nil pointer, bool, number (c<1000, e in -1..1), string (<=1 byte)}^2 for == != === !=="},
 			Outside:     []string{"coefficients beyond 64 bits (34-digit values)", "NaN / infinity ordering", "== and relational operators on operands of different kinds (statement silent)"},
 			Assumptions: commonAssumptions,
 		},
@@ -120,8 +130,12 @@ func allChecks() []Check {
 			ID: "C07", Title: "Locals bind and sequence left to right; caller data is never modified",
 			Runs: []HarnessRun{
 				{Harness: "VP_C07_locals", Quick: map[string]int{"N": 2, "D": 2}, Thorough: map[string]int{"N": 3, "D": 2}, MustReach: []string{"C07/locals/value", "C07/locals/error"}, PanicLabel: "C07/locals/no-panic"},
+				{Harness: "VP_C07_sequencing", Quick: map[string]int{"W": 2}, MustReach: []string{"C07/sequencing/done"}, PanicLabel: "C07/sequencing/no-panic"},
+				{Harness: "VP_C07_builtins", Quick: map[string]int{}, MustReach: []string{"C07/builtins/done"}, PanicLabel: "C07/builtins/no-panic"},
 			},
-			Bounds:      map[string]string{"locals": "programs chosen symbolically over {literal, $a/$b read, x/y read, $n = e, e,e, [e,e], f(e,e) (recording host function), c?e:e, (e), forbidden targets x=e, 1=e, x.k=e} with at most N+1 generated nodes, against a store-passing reference evaluator; frame condition by the engine's write monitor over every cell reachable from the data map plus a native-checkable snapshot comparison"},
+			Bounds: map[string]string{"sequencing": "L , R where L is an assignment wrapped in up to two of {parentheses, selected/unselected-side/condition of a conditional, array element, call argument, nested comma} with fillers that read locals, and R reads $a / [$a,$b] / $b = $a; value, call count and visibility in a later evaluation against the reference",
+				"builtins": "$a = num, fn($a), fn(num), [$a, num] for each of 10 numeric builtins and a symbolic number (c < 1000, e in -2..0): the local and the caller's number still hold the original value; write monitor on the data map",
+				"locals":   "programs chosen symbolically over {literal, $a/$b read, x/y read, $n = e, e,e, [e,e], f(e,e) (recording host function), c?e:e, (e), forbidden targets x=e, 1=e, x.k=e} with at most N+1 generated nodes, against a store-passing reference evaluator; frame condition by the engine's write monitor over every cell reachable from the data map plus a native-checkable snapshot comparison"},
 			Outside:     []string{"programs larger than the bound"},
 			Assumptions: append([]string{"write monitor: Store / map update / delete / clear instructions of the SSA code are intercepted; writes inside reflect.Value.Set* models are intercepted in SetMapIndex"}, commonAssumptions...),
 		},
@@ -129,6 +143,7 @@ func allChecks() []Check {
 			ID: "C08", Title: "Evaluation is a pure function of formula text and data",
 			Runs: []HarnessRun{
 				{Harness: "VP_C08_parse", Quick: map[string]int{"L": 2}, Thorough: map[string]int{"L": 3}, MustReach: []string{"C08/parse/accepted", "C08/parse/rejected"}, PanicLabel: "C08/parse/no-panic"},
+				{Harness: "VP_C08_pool", Quick: map[string]int{}, MustReach: []string{"C08/pool/done"}, PanicLabel: "C08/pool/no-panic", SampleEvery: 3},
 				{Harness: "VP_C08_eval", Quick: map[string]int{"N": 2, "D": 2}, Thorough: map[string]int{"N": 3, "D": 2}, MustReach: []string{"C08/eval/done"}, PanicLabel: "C08/eval/no-panic"},
 			},
 			Bounds: map[string]string{"parse": "every text of L symbolic bytes parsed twice with unrelated parsing/evaluation/analysis in between: same verdict, same error text / structurally identical trees; write monitor over every cell reachable from the package-level variables of formula (incl. the builtin table)",
@@ -140,6 +155,7 @@ func allChecks() []Check {
 			ID: "C09", Title: "A parsed formula can be shared across goroutines", Race: true,
 			Runs: []HarnessRun{
 				{Harness: "VP_C09_shared", Quick: map[string]int{"N": 2, "D": 2}, Thorough: map[string]int{"N": 3, "D": 2}, MustReach: []string{"C09/shared/done"}, PanicLabel: "C09/shared/no-panic"},
+				{Harness: "VP_C09_shared", Quick: map[string]int{"N": 0, "D": 0}, MustReach: []string{"C09/shared/done"}, PanicLabel: "C09/shared/no-panic", SampleEvery: 1},
 			},
 			Bounds:      map[string]string{"shared": "for every program of the C07 generator: the operations a goroutine performs on a shared tree (Resolve with its own runner and data, ResolveReferenceFields, ParseSourceCode and FormatDiagnostic of another text) write no cell reachable from the tree or from the package-level state (sufficient condition for race freedom under the Go memory model); native replays run the same operations in 4 goroutines under the race detector"},
 			Outside:     []string{"interleavings themselves are not explored (the solver decides the frame condition that makes them irrelevant)", "synchronisation inside dependencies and the standard library (sync.Map, decimal's atomic table) is trusted"},
@@ -180,7 +196,7 @@ func allChecks() []Check {
 			ID: "C18", Title: "Numeric builtins and bit operators compute what their names say",
 			Runs: []HarnessRun{
 				{Harness: "VP_C18_rounding", Quick: map[string]int{"CB": 1000, "E": 2}, Thorough: map[string]int{"CB": 1000000, "E": 4}, MustReach: []string{"C18/rounding/done"}, PanicLabel: "C18/rounding/no-panic"},
-				{Harness: "VP_C18_minmax", Quick: map[string]int{"N": 2, "CB": 100}, Thorough: map[string]int{"N": 3, "CB": 100}, MustReach: []string{"C18/minmax/done"}, PanicLabel: "C18/minmax/no-panic"},
+				{Harness: "VP_C18_minmax", Quick: map[string]int{"N": 3, "CB": 10}, Thorough: map[string]int{"N": 4, "CB": 10}, MustReach: []string{"C18/minmax/done"}, PanicLabel: "C18/minmax/no-panic"},
 				{Harness: "VP_C18_conv", Quick: map[string]int{"CB": 1000, "E": 2}, Thorough: map[string]int{"CB": 100000, "E": 3}, MustReach: []string{"C18/conv/done"}, PanicLabel: "C18/conv/no-panic"},
 				{Harness: "VP_C18_bits", Quick: map[string]int{"B": 20}, Thorough: map[string]int{"B": 31}, MustReach: []string{"C18/bits/done"}, PanicLabel: "C18/bits/no-panic"},
 				{Harness: "VP_C18_bigints", Quick: map[string]int{"LO": 0, "HI": 62}, MustReach: []string{"C18/bigints/done"}, PanicLabel: "C18/bigints/no-panic"},
@@ -222,7 +238,8 @@ func allChecks() []Check {
 		{
 			ID: "C12", Title: "Numeric literals denote exactly the decimal number written",
 			Runs: []HarnessRun{
-				{Harness: "VP_C12_literals", Quick: map[string]int{"L": 4}, Thorough: map[string]int{"L": 6}, MustReach: []string{"C12/literals/wellformed", "C12/literals/malformed"}, PanicLabel: "C12/literals/no-panic"},
+				{Harness: "VP_C12_literals", Quick: map[string]int{"L": 6, "ALPHA": 1}, Thorough: map[string]int{"L": 7, "ALPHA": 1}, MustReach: []string{"C12/literals/wellformed", "C12/literals/malformed"}, PanicLabel: "C12/literals/no-panic"},
+				{Harness: "VP_C12_literals", Quick: map[string]int{"L": 4, "ALPHA": 0}, Thorough: map[string]int{"L": 6, "ALPHA": 0}, MustReach: []string{"C12/literals/wellformed", "C12/literals/malformed"}, PanicLabel: "C12/literals/no-panic"},
 			},
 			Bounds:      map[string]string{"literals": "every text of 1..L bytes over the alphabet {0-9 . e E + - _ a} that is exactly one literal candidate per the reference recogniser, in three syntactic positions (bare, [lit], 1?(lit):0); digits stay symbolic inside the class; quick L=4, thorough L=6"},
 			Outside:     []string{"literals longer than L bytes (40-digit parts)", "identifier characters other than 'a' directly after a literal (the class test IsIdentifierStart is C14's subject)"},
@@ -247,7 +264,7 @@ func allChecks() []Check {
 				{Harness: "VP_C14_tokens", Quick: map[string]int{"L": 4, "OPS": 1}, Thorough: map[string]int{"L": 5, "OPS": 1}, MustReach: []string{"C14/tokens/complete"}, PanicLabel: "C14/tokens/no-panic"},
 				{Harness: "VP_C14_scanstep", Quick: map[string]int{"L": 3}, Thorough: map[string]int{"L": 4}, MustReach: []string{"C14/scanstep/done"}, PanicLabel: "C14/scanstep/no-panic"},
 			},
-			Bounds: map[string]string{"tokens": "the real scanner's token sequence (kind, start, end, line-break flag) equals an independent longest-match reference tokenizer's (operator table longest-first, keywords as whole words, identifier classes, ES whitespace/line-break separators) on every text of L symbolic bytes (quick L=2, thorough L=3) and on every text of L bytes over the operator-dense alphabet {= ! . & | ? < > + a 1 space newline} (quick L=4, thorough L=5); comparison stops where the statement leaves token extents open (malformed numbers, hex, unterminated strings, escapes)",
+			Bounds: map[string]string{"tokens": "the real scanner's token sequence (kind, start, end, line-break flag) equals an independent longest-match reference tokenizer's (operator table longest-first, keywords as whole words, identifier classes, ES whitespace/line-break separators) on every text of L symbolic bytes (quick L=2, thorough L=3) and on every text of L bytes over the operator-dense alphabet {= ! . & | ? < > + a 1 space newline 0xC2 0xA0 (NBSP)} (quick L=4, thorough L=5); comparison stops where the statement leaves token extents open (malformed numbers, hex, unterminated strings, escapes)",
 				"classes": "every code point 0..0x10FFFF (one symbolic 32-bit rune)", "scanstep": "one Scan() from every start position of every text of L symbolic bytes (inductive step: tiling for all texts of that size follows by induction over calls); quick L=3, thorough L=4"},
 			Outside:     []string{"contents of the ES5 identifier tables (no independent oracle)", "texts longer than the bound"},
 			Assumptions: commonAssumptions,
@@ -257,9 +274,11 @@ func allChecks() []Check {
 			Runs: []HarnessRun{
 				{Harness: "VP_C15_linecol", Quick: map[string]int{"L": 4}, Thorough: map[string]int{"L": 5}, MustReach: []string{"C15/linecol/done"}},
 				{Harness: "VP_C15_binsearch", Quick: map[string]int{"N": 5}, Thorough: map[string]int{"N": 7}, MustReach: []string{"C15/binsearch/done"}},
+				{Harness: "VP_C15_tokranges", Quick: map[string]int{"K": 3}, Thorough: map[string]int{"K": 4}, MustReach: []string{"C15/tokranges/accepted"}, PanicLabel: "C15/tokranges/no-panic"},
 				{Harness: "VP_C15_ranges", Quick: map[string]int{"L": 3}, Thorough: map[string]int{"L": 4}, MustReach: []string{"C15/ranges/accepted", "C15/errtext/diagnostic"}, PanicLabel: "C15/ranges/no-panic"},
 			},
-			Bounds:      map[string]string{"ranges": "real parse of every text of L symbolic bytes: node ranges within the text, children nested in source order, text[pos:end] of every expression node re-parsed and compared; for rejected texts the error string equals pos(l, c) error(code) msg with (l,c) from the direct count at Diagnostics[0].Start; quick L=3, thorough L=4", "linecol": "all texts of exactly L bytes (every byte symbolic) x every offset 0..L; quick L=4, thorough L=5", "binsearch": "strictly increasing arrays of 0..N symbolic 64-bit ints; quick N=5, thorough N=7"},
+			Bounds: map[string]string{"tokranges": "token level (stub scanner, unit-width tokens): for every accepted sequence of K symbolic tokens with symbolic line-break flags, leaves and member names cover exactly their token and children nest in source order (natively: byte ranges of the rendered text, names cover their text); quick K=3, thorough K=4",
+				"ranges": "real parse of every text of L symbolic bytes: node ranges within the text, children nested in source order, text[pos:end] of every expression node re-parsed and compared; for rejected texts the error string equals pos(l, c) error(code) msg with (l,c) from the direct count at Diagnostics[0].Start; quick L=3, thorough L=4", "linecol": "all texts of exactly L bytes (every byte symbolic) x every offset 0..L; quick L=4, thorough L=5", "binsearch": "strictly increasing arrays of 0..N symbolic 64-bit ints; quick N=5, thorough N=7"},
 			Outside:     []string{"texts longer than the bound"},
 			Assumptions: commonAssumptions,
 		},
